@@ -11,6 +11,7 @@ use tower::{Service, ServiceExt};
 
 mod certs;
 mod hostile;
+mod rawdial;
 
 fn peer(v: &Value) -> PeerId {
     let mut b = [0u8; 32];
@@ -436,7 +437,7 @@ async fn history(args: &Value) -> Value {
 
 fn main() {
     let args: Vec<String> = std::env::args().collect();
-    let multi = matches!(args.get(1).map(|s| s.as_str()), Some("admission") | Some("default_timeouts") | Some("rpc_pairing") | Some("history") | Some("oversize_confined") | Some("hostile_streams") | Some("network_names"));
+    let multi = matches!(args.get(1).map(|s| s.as_str()), Some("admission") | Some("default_timeouts") | Some("rpc_pairing") | Some("history") | Some("oversize_confined") | Some("hostile_streams") | Some("network_names") | Some("claimed_name_grid"));
     let rt = if multi {
         tokio::runtime::Builder::new_multi_thread().worker_threads(2).enable_all().build().unwrap()
     } else {
@@ -546,6 +547,7 @@ async fn run(args: Vec<String>) {
         "default_timeouts" => default_timeouts(&a).await,
         "cert_corpus" => certs::cert_corpus(&a),
         "network_names" => network_names(&a).await,
+        "claimed_name_grid" => rawdial::claimed_name_grid(&a).await,
         "hostile_streams" => hostile::hostile_streams(&a).await,
         // several messages written in ONE process, one after the other (state kept between calls would show)
         "write_sequence" => {
